@@ -7,7 +7,7 @@ frames, size steps), builders (ares_create_query / ares_mkquery tables).  The
 `oracle` argument selects which property's oracles are evaluated on the space.
 """
 
-_T = ['.build/bin/exc']
+_T = ['bin/exc']  # make targets relative to the build dir
 
 _ASSUME_REF = ('the independent RFC decoder/encoder in harness/exc_ref.cc (compiled without any c-ares include path) is the '
                'reference; its "supported subset" is: one question, opcodes 0/1/2/4/5, classes IN/CH/HS/NONE (ANY in questions and SIG), '
